@@ -17,6 +17,8 @@
 
    The replay checks what every trace of the model satisfies:
    * the verdict of each handshake is [hs_accept] (model's connect guard);
+   * every UPDATE is written with the AS width of the capability announced in
+     the handshake of the connection it arrives on (C17_flush_uses_connection_capability);
    * every message is justified (Proofs/SessionP.v emitted_justified: a flush
      only sends UPDATE k v with desired k = Some v and withdraws k with
      desired k = None, k announced before) by a Set that was already called,
@@ -37,7 +39,7 @@ Inductive tev :=
 | TSetRejected
 | TAccept (c : N)
 | THandshake (c asn : N) (fb acc : bool)
-| TUpd (c k v : N)
+| TUpd (c k v w : N)               (* w: width of the AS numbers in AS_PATH as written: 0 (empty path), 2, 4 *)
 | TWdr (c : N) (ks : list N)
 | TDrop (c : N)
 | TCloseRet
@@ -54,7 +56,8 @@ Inductive scase :=
 | STrace (id : N) (g : cfg) (t : list tev)
 | SStep (id : N) (g : cfg) (pre : sst) (op : sop) (post : sst).
 
-Record cstate := { cs_id : N; cs_j : nat; cs_tbl : table; cs_live : bool }.
+Record cstate := { cs_id : N; cs_j : nat; cs_tbl : table; cs_live : bool;
+                   cs_fb : bool }.   (* capability announced in THIS connection's handshake *)
 Record rstate := { sets : list table;          (* S_0 = empty, S_1, ... in call order *)
                    nret : nat;                  (* number of Set calls that have returned *)
                    accepted : list (N * nat);   (* TAccept seen, with [nret] at that moment *)
@@ -102,15 +105,18 @@ Definition rstep (g : cfg) (r : rstate) (e : tev) : option rstate :=
            holds s.mu across the dial, so those Sets are in s.new/advertised) and
            (b) every set a message logged so far was justified by *)
         let j0 := fold_left Nat.max (map cs_j (conns r)) n0 in
-        Some (set_conn {| cs_id := c; cs_j := j0; cs_tbl := empty; cs_live := true |} r)
+        Some (set_conn {| cs_id := c; cs_j := j0; cs_tbl := empty; cs_live := true; cs_fb := fb |} r)
       else Some r
     end
-  | TUpd c k v =>
+  | TUpd c k v w =>
     match find_conn c r with
     | Some x =>
       if negb (cs_live x) || negb (mem k (universe g)) then None
+      (* C17_flush_uses_connection_capability: iBGP empty path, eBGP the width of
+         the capability announced on THIS connection *)
+      else if negb (w =? (if my_asn g =? peer_asn g then 0 else if cs_fb x then 4 else 2)) then None
       else match justify (fun t => oeqb (t k) (Some v)) r (cs_j x) with
-           | Some j => Some (set_conn {| cs_id := c; cs_j := j; cs_tbl := upd (cs_tbl x) k (Some v); cs_live := true |} r)
+           | Some j => Some (set_conn {| cs_id := c; cs_j := j; cs_tbl := upd (cs_tbl x) k (Some v); cs_live := true; cs_fb := cs_fb x |} r)
            | None => None
            end
     | None => None
@@ -121,14 +127,14 @@ Definition rstep (g : cfg) (r : rstate) (e : tev) : option rstate :=
       if negb (cs_live x) || match ks with [] => true | _ => false end then None
       else if negb (forallb (fun k => is_some (cs_tbl x k)) ks) then None
       else match justify (fun t => forallb (fun k => negb (is_some (t k))) ks) r (cs_j x) with
-           | Some j => Some (set_conn {| cs_id := c; cs_j := j; cs_tbl := apply_msg (cs_tbl x) (MWdr ks); cs_live := true |} r)
+           | Some j => Some (set_conn {| cs_id := c; cs_j := j; cs_tbl := apply_msg (cs_tbl x) (MWdr ks); cs_live := true; cs_fb := cs_fb x |} r)
            | None => None
            end
     | None => None
     end
   | TDrop c =>
     match find_conn c r with
-    | Some x => Some (set_conn {| cs_id := c; cs_j := cs_j x; cs_tbl := cs_tbl x; cs_live := false |} r)
+    | Some x => Some (set_conn {| cs_id := c; cs_j := cs_j x; cs_tbl := cs_tbl x; cs_live := false; cs_fb := cs_fb x |} r)
     | None => Some r
     end
   | TCloseRet => Some {| sets := sets r; nret := nret r; accepted := accepted r; conns := conns r; closedret := true |}
